@@ -421,15 +421,36 @@ def helper_edits(ctx, f, analysis):
                                   {"label": f"helper-{hname}-{warm}", "hex": base.hex(), "verdict": sev, "floor": want})
 
 
-def setup():
+def setup(ctx=None, user=False):
     import fickling  # noqa: F401
     import fickling.fickle as f
     import fickling.analysis as analysis
+    if user:
+        # configuration "user-analyses": the application has defined analyses of its own before the first check, the way
+        # the registry invites (subclassing registers): a customised subclass of every stock analysis and a new one.
+        # Added rules may add findings; the floor of the stock rules stays.
+        stock = list(analysis.Analysis.ALL)
+        for a in (stock if user == "all" else [stock[int(user) % len(stock)]]):
+            base = type(a)
+            type("Site" + base.__name__, (base,), {"__module__": __name__, "__doc__": "site customisation of " + base.__name__})
+
+        class SiteNothing(analysis.Analysis):
+            def analyze(self, context):
+                return iter(())
+    if ctx is not None:
+        orig = ctx.agg.violation
+        ctx.agg.violation = lambda k, what, w: orig(k, what, dict(w, configuration=f"user-analyses:{user}" if user else "stock"))
+        ctx.agg.hist("configurations", f"user-analyses:{user}" if user else "stock")
     return f, analysis
 
 
 def run_shard(ctx):
-    f, analysis = setup()
+    # one shard in four runs with site analyses registered: all stock ones customised, or one of them (which one rotates)
+    user = False
+    if (ctx.shard + ctx.seed) % 4 == 1:
+        k = (ctx.shard // 4 + ctx.seed) % 5
+        user = "all" if k == 4 else str(k + 2)          # 2 = NonStandardImports, 3 = UnsafeImportsML, 4 = BadCalls, 5 = OvertlyBadEvals
+    f, analysis = setup(ctx, user=user)
     ctx.agg.notes.append({"registered_analyses": [type(a).__name__ for a in analysis.Analysis.ALL]})
     for label, data in programs(ctx):
         check(ctx, f, analysis, label, data)
@@ -437,6 +458,7 @@ def run_shard(ctx):
 
 
 def replay(ctx, payload):
-    f, analysis = setup()
     c = payload["case"]
+    conf = c.get("configuration", "stock")
+    f, analysis = setup(ctx, user=conf.split(":", 1)[1] if conf.startswith("user-analyses:") else False)
     check(ctx, f, analysis, c.get("label", "replay"), bytes.fromhex(c["hex"]))
